@@ -47,13 +47,15 @@ type Script struct {
 	delivered []byte
 	readLog   []string
 
-	Reads           atomic.Int64
-	DataReads       atomic.Int64
-	Closes          atomic.Int64
-	ReadsAfterClose atomic.Int64
-	InRead          atomic.Bool
-	CloseDelay      int
-	CloseErr        error // returned by Close
+	plain            int // touched by Read and Close without synchronisation (for the race detector)
+	ClosedDuringRead atomic.Int64
+	Reads            atomic.Int64
+	DataReads        atomic.Int64
+	Closes           atomic.Int64
+	ReadsAfterClose  atomic.Int64
+	InRead           atomic.Bool
+	CloseDelay       int
+	CloseErr         error // returned by Close
 	// MarkOffset: ReadsAfterMark counts data-returning reads that started
 	// after the byte at MarkOffset had been delivered.
 	MarkOffset     int
@@ -79,6 +81,7 @@ func delay(class int) {
 }
 
 func (s *Script) Read(p []byte) (int, error) {
+	s.plain++ // deliberately unsynchronised: Read and Close of one input must be ordered by the library
 	s.InRead.Store(true)
 	defer s.InRead.Store(false)
 	s.Reads.Add(1)
@@ -135,6 +138,10 @@ func (s *Script) Read(p []byte) (int, error) {
 }
 
 func (s *Script) Close() error {
+	s.plain++
+	if s.InRead.Load() {
+		s.ClosedDuringRead.Add(1)
+	}
 	delay(s.CloseDelay)
 	s.Closes.Add(1)
 	return s.CloseErr
